@@ -1,7 +1,9 @@
 mod c01;
 mod c02;
+mod c04;
 mod c06;
 mod c07;
+mod c08;
 mod c09;
 mod c10;
 mod eng;
@@ -21,6 +23,9 @@ fn main() {
         std::process::exit(2);
     }
     report::quiet_panics();
+    if args[1] == "--c04-depth" {
+        std::process::exit(c04::depth_child(args.get(2).map(|s| s.as_str()).unwrap_or("")));
+    }
     if args[1] == "universe" {
         let level: u8 = args.get(2).and_then(|x| x.parse().ok()).unwrap_or(0);
         let t = std::time::Instant::now();
@@ -57,8 +62,10 @@ fn main() {
     let code = match args[1].as_str() {
         "C01" => c01::run(tier),
         "C02" => c02::run(tier),
+        "C04" => c04::run(tier),
         "C06" => c06::run(tier),
         "C07" => c07::run(tier),
+        "C08" => c08::run(tier),
         "C09" => c09::run(tier),
         "C10" => c10::run(tier),
         x => {
